@@ -84,6 +84,21 @@ pub fn check_layout(module: &Module) -> Result<(), LayoutError> {
                 layout_metal,
             ));
         }
+
+        // The same total size does not imply the same layout - compare the offset of every field
+        let mut offsets_hlsl = Vec::new();
+        let mut offsets_metal = Vec::new();
+        get_field_offsets(module, ty, PackingMode::HlslStructuredBuffer, 0, &mut offsets_hlsl);
+        get_field_offsets(module, ty, PackingMode::Metal, 0, &mut offsets_metal);
+        for (offset_hlsl, offset_metal) in offsets_hlsl.iter().zip(&offsets_metal) {
+            if offset_hlsl != offset_metal {
+                return Err(LayoutError::MismatchedFieldOffset(
+                    loc,
+                    *offset_hlsl,
+                    *offset_metal,
+                ));
+            }
+        }
     }
 
     Ok(())
@@ -92,6 +107,7 @@ pub fn check_layout(module: &Module) -> Result<(), LayoutError> {
 pub enum LayoutError {
     UnknownLayout(SourceLocation),
     MismatchedLayout(SourceLocation, Layout, Layout),
+    MismatchedFieldOffset(SourceLocation, u32, u32),
 }
 
 impl CompileError for LayoutError {
@@ -108,6 +124,17 @@ impl CompileError for LayoutError {
                         f,
                         "struct has size={} align={} on HLSL but size={} align={} on Metal",
                         lhs.size, lhs.align, rhs.size, rhs.align,
+                    )
+                },
+                *loc,
+                Severity::Error,
+            ),
+            LayoutError::MismatchedFieldOffset(loc, lhs, rhs) => w.write_message(
+                &|f| {
+                    write!(
+                        f,
+                        "struct has a field at offset {} on HLSL but at offset {} on Metal",
+                        lhs, rhs,
                     )
                 },
                 *loc,
@@ -165,6 +192,8 @@ fn get_type_layout(module: &Module, ty: TypeId, mode: PackingMode) -> Option<Lay
                 layout.size += member_layout.size;
                 layout.align = layout.align.max(member_layout.align);
             }
+            // The size of a struct is a multiple of its alignment
+            layout.size = layout.size.next_multiple_of(layout.align);
             Some(layout)
         }
         TypeLayer::StructTemplate(_) => panic!("unexpected struct template"),
@@ -181,5 +210,42 @@ fn get_type_layout(module: &Module, ty: TypeId, mode: PackingMode) -> Option<Lay
         TypeLayer::Array(_, None) => None,
         TypeLayer::TemplateParam(_) => panic!("unexpected template param"),
         TypeLayer::Modifier(_, ty) => get_type_layout(module, ty, mode),
+    }
+}
+
+/// Collect the byte offset of every struct member of a type placed at the given offset
+///
+/// For arrays we record the members of the first element and the start of the second element
+fn get_field_offsets(
+    module: &Module,
+    ty: TypeId,
+    mode: PackingMode,
+    base: u32,
+    offsets: &mut Vec<u32>,
+) -> Option<()> {
+    let tyl = module.type_registry.get_type_layer(ty);
+    match tyl {
+        TypeLayer::Struct(sid) => {
+            let def = &module.struct_registry[sid.0 as usize];
+            let mut size = 0u32;
+            for member in &def.members {
+                let member_layout = get_type_layout(module, member.type_id, mode)?;
+                size = size.next_multiple_of(member_layout.align);
+                offsets.push(base + size);
+                get_field_offsets(module, member.type_id, mode, base + size, offsets)?;
+                size += member_layout.size;
+            }
+            Some(())
+        }
+        TypeLayer::Array(inner, Some(count)) => {
+            let inner_layout = get_type_layout(module, inner, mode)?;
+            get_field_offsets(module, inner, mode, base, offsets)?;
+            if count > 1 {
+                offsets.push(base + inner_layout.size);
+            }
+            Some(())
+        }
+        TypeLayer::Modifier(_, ty) => get_field_offsets(module, ty, mode, base, offsets),
+        _ => Some(()),
     }
 }
